@@ -3018,6 +3018,47 @@ func freshZero(v ssa.Value) bool {
 }
 
 
+// memValVaries: the contents of the location may differ between iterations of
+// the loop with this body: it is merged or written in the loop, or the
+// location itself is chosen by a value computed in the loop (a[i] with the
+// loop's i names a different element in every iteration).
+func memValVaries(v *memVal, body map[*ssa.BasicBlock]bool) bool {
+	if v.blk != nil && body[v.blk] {
+		return true
+	}
+	for _, sb := range v.sites {
+		if body[sb] {
+			return true
+		}
+	}
+	seen := map[ssa.Value]bool{}
+	var varies func(x ssa.Value, depth int) bool
+	varies = func(x ssa.Value, depth int) bool {
+		if x == nil || seen[x] || depth > 8 {
+			return false
+		}
+		seen[x] = true
+		switch a := x.(type) {
+		case *memVal:
+			return memValVaries(a, body)
+		case *ssa.IndexAddr:
+			return varies(a.X, depth+1) || varies(a.Index, depth+1)
+		case *ssa.FieldAddr:
+			return varies(a.X, depth+1)
+		case *ssa.ChangeType:
+			return varies(a.X, depth+1)
+		case *ssa.Convert:
+			return varies(a.X, depth+1)
+		case *ssa.UnOp:
+			return a.Block() != nil && body[a.Block()]
+		case ssa.Instruction:
+			return a.Block() != nil && body[a.Block()]
+		}
+		return false
+	}
+	return varies(v.addr, 0) || varies(v.base, 0)
+}
+
 func (p *bprover) proveByLoopInduction(ctxFacts []bfact, goal blin, at *ssa.BasicBlock, splits int) bool {
 	if splits <= 0 || at == nil || p.inInduction > 1 {
 		return false
@@ -3068,13 +3109,8 @@ func (p *bprover) proveByLoopInduction(ctxFacts []bfact, goal blin, at *ssa.Basi
 				return false
 			}
 		case *memVal:
-			if v.blk != nil && body[v.blk] {
+			if memValVaries(v, body) {
 				return false
-			}
-			for _, sb := range v.sites {
-				if body[sb] {
-					return false
-				}
 			}
 		}
 	}
@@ -3090,13 +3126,8 @@ func (p *bprover) proveByLoopInduction(ctxFacts []bfact, goal blin, at *ssa.Basi
 				return false
 			}
 		case *memVal:
-			if v.blk != nil && body[v.blk] {
+			if memValVaries(v, body) {
 				return false
-			}
-			for _, sb := range v.sites {
-				if body[sb] {
-					return false
-				}
 			}
 		}
 		return true
